@@ -636,5 +636,125 @@ example : ∀ e ∈ recRounds recOverwrite (fun i => i + 1) (fun _ => 0)
   · intro r hr; simp [refs, wT0] at hr; subst hr; simp [origin]
   · intro i j h v h1 h2; omega
   · intro a c ha hc _; rw [ha, hc]
+/-! ### interleaved histories: node writes, record writes and prune prefixes in any order -/
+
+/-- one durable step of the store's life: the node batch of round `i`'s save, its dead-node record, or the first `n`
+    writes of `PruneBelowVersion pv` (a complete prune, or one interrupted by a crash) -/
+inductive SOp where
+  | putNodes (i : Nat)
+  | putRec (i : Nat)
+  | prune (pv n : Nat)
+
+def SOp.apply (N : Nat → List (Bytes × Bytes)) (D : Nat → List Bytes) (ver : Nat → Nat) (maxN : Nat) (s : PStore) : SOp → PStore
+  | .putNodes i => s.apply (.putNodes (N i))
+  | .putRec i => s.apply (.putRec (ver i) (D i))
+  | .prune pv n => s.applyAll ((pruneStream maxN s pv).take n)
+
+/-- every dead-node record of the store is the record of some round (possibly overwritten by a re-execution: `D i` is
+    whatever the last `putRec i` wrote) -/
+def Genuine (D : Nat → List Bytes) (ver : Nat → Nat) (s : PStore) : Prop := ∀ e ∈ s.dead, ∃ i, e = (ver i, D i)
+
+/-- **Prune safety over the life of the store.**  For ANY sequence of node-batch writes, record writes (in either order
+    within a save, also with a crash between them) and prune prefixes (complete, interrupted, re-run): a tree `T j` that
+    resolves in the store keeps resolving, provided every prune of the sequence is below versions of rounds `≤ j` only.
+    Hypotheses: `hdead` - the keys recorded by round `i` are keys of no node of `T j` for `i ≤ j` (the conclusion of
+    `C05_dead_forever_reexec` / `_runs`); `hnodes` - a save's node batch keeps resolvable trees resolvable (`C04_old_roots`).
+    The record map need not be complete: records come and go. -/
+theorem C05_history_safe (H : Bytes → Bytes) (T : Nat → Node) (N : Nat → List (Bytes × Bytes)) (D : Nat → List Bytes)
+    (ver : Nat → Nat) (maxN j : Nat)
+    (hdead : ∀ i, i ≤ j → ∀ x ∈ D i, x ∉ nodeKeys H (T j))
+    (hnodes : ∀ (s : PStore) (i : Nat), Resolves H (Map.get s.nodes) (T j) [] →
+      Resolves H (Map.get (s.apply (.putNodes (N i))).nodes) (T j) []) :
+    ∀ (ops : List SOp) (s : PStore), Genuine D ver s →
+      (∀ pv n, SOp.prune pv n ∈ ops → ∀ i, ver i < pv → i ≤ j) →
+      Resolves H (Map.get s.nodes) (T j) [] →
+      Resolves H (Map.get (ops.foldl (SOp.apply N D ver maxN) s).nodes) (T j) [] ∧
+      Genuine D ver (ops.foldl (SOp.apply N D ver maxN) s) := by
+  intro ops
+  induction ops with
+  | nil => intro s hg _ hr; exact ⟨hr, hg⟩
+  | cons op ops ih =>
+    intro s hg hp hr
+    simp only [List.foldl_cons]
+    apply ih
+    · cases op with
+      | putNodes i => exact hg
+      | putRec i =>
+        intro e he
+        rcases mem_put s.dead (ver i) (D i) e he with h | ⟨h, _⟩
+        · exact ⟨i, h⟩
+        · exact hg e h
+      | prune pv n =>
+        intro e he
+        exact hg e (dead_subset_pruneOnly _ s (pruneOnly_take _ n (pruneOnly_stream maxN s pv)) e he)
+    · intro pv n hm; exact hp pv n (List.mem_cons_of_mem _ hm)
+    · cases op with
+      | putNodes i => exact hnodes s i hr
+      | putRec i => exact hr
+      | prune pv n =>
+        apply C05_prune_safe H maxN s pv n (T j) hr
+        intro e he hlt x hx
+        obtain ⟨i, rfl⟩ := hg e he
+        exact hdead i (hp pv n (List.mem_cons_self ..) i hlt) x hx
+
+/-- non-vacuity of `C05_history_safe`: the witness leaf; save of round 1 in the order record-then-nodes, an interrupted
+    prune, the prune again, another save, another prune -/
+example : let s0 : PStore := { nodes := [(Ref.key id ⟨[], wT0⟩, Ref.encode id ⟨[], wT0⟩)] }
+    Resolves id (Map.get (([SOp.putRec 1, .putNodes 1, .prune 3 1, .prune 3 5, .putNodes 2, .putRec 2, .prune 9 7].foldl
+      (SOp.apply (fun _ => []) (fun _ => []) (fun i => i + 1) 1000) s0).nodes)) wT0 [] := by
+  intro s0
+  refine (C05_history_safe id (fun _ => wT0) (fun _ => []) (fun _ => []) (fun i => i + 1) 1000 100 ?_ ?_ _ s0 ?_ ?_ ?_).1
+  · intro i _ x hx; cases hx
+  · intro s i h; simpa [PStore.apply, Map.putAll] using h
+  · intro e he; cases he
+  · intro pv n hm i hlt
+    simp only [List.mem_cons, SOp.prune.injEq, reduceCtorEq, false_or, List.mem_nil_iff, or_false] at hm
+    rcases hm with ⟨rfl, _⟩ | ⟨rfl, _⟩ | ⟨rfl, _⟩ <;> omega
+  · intro r hr
+    simp [refs, wT0] at hr
+    subst hr
+    simp [s0, Map.get, wT0]
+
+/-- non-vacuity of `C05_dead_forever_reexec` on a chain whose RETAINED round changes something: round 1 (version 2) is
+    executed twice from the leaf `[3] := 65` - first `[3] := 66` (abandoned), then `[3] := 67` (retained: the leaf of
+    version 1 dies, the tree becomes the leaf of version 2 with 67) -/
+example : ∀ e ∈ recRounds recOverwrite (fun _ => 2) (fun i => if i = 1 then 1 else 0)
+      (fun i k => deadKeys id ((Trie.open [] .empty 0).applyEvents id
+        ((fun i k => if i = 1 then (if k = 0 then (insertE 2 [66] (.leaf 1 [3] [65]) [] [3]).2 ++ []
+                                     else (insertE 2 [67] (.leaf 1 [3] [65]) [] [3]).2 ++ []) else ([] : List Event)) i k))) 1,
+    ∃ i, i < 1 ∧ e.1 = (fun _ => 2) (i + 1) ∧
+      ∀ x ∈ e.2, ∀ j, x ∉ nodeKeys id ((fun i => if i = 0 then Node.leaf 1 [3] [65] else .leaf 2 [3] [67]) (i + 1 + j)) := by
+  have hne : Ref.key id ⟨[], .leaf 1 [3] [65]⟩ ≠ Ref.key id ⟨[], .leaf 2 [3] [67]⟩ := by
+    intro hk
+    simp [Ref.key, key, le64] at hk
+    exact absurd (congrArg List.getLast? hk) (by simp)
+  apply C05_dead_forever_reexec id (fun a => a = ⟨[], .leaf 1 [3] [65]⟩ ∨ a = ⟨[], .leaf 2 [3] [67]⟩) _
+    (fun i => if i = 0 then Node.leaf 1 [3] [65] else .leaf 2 [3] [67]) (fun _ => 2) (fun i => if i = 1 then 1 else 0)
+    (fun i k => if i = 1 then (if k = 0 then (insertE 2 [66] (.leaf 1 [3] [65]) [] [3]).2 ++ []
+                               else (insertE 2 [67] (.leaf 1 [3] [65]) [] [3]).2 ++ []) else [])
+    (fun i v => v = i + 1) (fun _ _ => Trie.open [] .empty 0) (fun _ _ => ⟨rfl, rfl⟩)
+  · intro i
+    cases i with
+    | zero =>
+      simp only [Nat.zero_add, if_true, Nat.reduceAdd, Nat.succ_ne_zero, if_false]
+      have hround : RoundEvents 2 (.leaf 1 [3] [65]) ((insertE 2 [67] (.leaf 1 [3] [65]) [] [3]).2 ++ []) (.leaf 2 [3] [67]) := by
+        apply RoundEvents.ins _ _ _ _ _ (by simp)
+        have h2 : (insertE 2 [67] (.leaf 1 [3] [65]) [] [3]).1 = .leaf 2 [3] [67] := by simp [insertE, splitCommon]
+        rw [h2]
+        exact RoundEvents.nil _
+      have := TrieRun.own (H := id) (U := fun a => a = ⟨[], .leaf 1 [3] [65]⟩ ∨ a = ⟨[], .leaf 2 [3] [67]⟩)
+        (Vok := fun v => v = 2) 2 _ _ _ _ [] rfl hround
+        (by intro a ha; simp [insertE, splitCommon, eventRefs] at ha; rcases ha with ha | ha <;> simp [ha])
+        (TrieRun.nil _)
+      simpa using this
+    | succ i => simp only [Nat.add_eq_zero_iff, Nat.succ_ne_zero, and_false, if_false, Nat.add_right_cancel_iff, false_and]
+                exact TrieRun.nil _
+  · exact Or.inr (by simp [WFn])
+  · intro r hr; simp [refs] at hr; subst hr; exact Or.inl rfl
+  · intro r hr; simp [refs] at hr; subst hr; simp [origin]
+  · intro i j h v h1 h2; omega
+  · intro a c hA hC hk
+    rcases hA with hA | hA <;> rcases hC with hC | hC <;> subst hA <;> subst hC <;>
+      first | rfl | exact absurd hk hne | exact absurd hk.symm hne
 
 end Verif.Props.C05
